@@ -81,6 +81,29 @@ def circuit_sig(circ, beta):
     return rm.sig_leaf(rows, c)
 
 
+def covers_as_documented(leaf, box, lagrangian=False):
+    """True when the cover helper of the real constraint equals the model's (i.e. the documented reduction rule explains the covers)"""
+    import sageopt.coniclifts as cl
+    from sageopt.coniclifts.base import ScalarExpression
+    f = st.build(leaf).without_zeros()
+    X = rm.build_sig_domain(leaf['n'], box)
+    if lagrangian:
+        f = f - cl.Variable(name='c06gamma_k')
+    try:
+        con = cl.PrimalSageCone(f.c, f.alpha, X, 'c06k')
+    except Exception:  # noqa: BLE001
+        return False
+    signs = []
+    for se in (f.c.flat if hasattr(f.c, 'flat') else f.c):
+        if isinstance(se, ScalarExpression) and len(se.atoms_to_coeffs) > 0:
+            signs.append('nonconst')
+        else:
+            v = float(se.offset) if isinstance(se, ScalarExpression) else float(se)
+            signs.append('neg' if v < 0 else ('pos' if v > 0 else 'zero'))
+    mo = run_driver([{'op': 'sage.ech', 'alpha': st.mat_json(f.alpha), 'signs': signs, 'hasX': X is not None, 'settings': sm.DEFAULTS}])[0]
+    return common.canon_json(sm.ech_json(con.ech)) == common.canon_json(mo)
+
+
 def solve_feas(leaf, box=None):
     import sageopt as so
     f = st.build(leaf)
@@ -170,8 +193,11 @@ def gen_one_negative(rng):
     n = rng.randint(1, 2)
     m = rng.randint(2, 4)
     rows, seen = [[F(0)] * n], {tuple([F(0)] * n)}
+    nonneg = rng.random() < 0.5            # nonnegative exponents with a zero row: the cover reduction's precondition holds
+    if nonneg:
+        m = min(m, 3 ** n)
     while len(rows) < m:
-        r = tuple(F(rng.randint(-2, 3)) for _ in range(n))
+        r = tuple(F(rng.randint(0, 2) if nonneg else rng.randint(-2, 3)) for _ in range(n))
         if r not in seen:
             seen.add(r)
             rows.append(list(r))
@@ -182,9 +208,10 @@ def gen_one_negative(rng):
     return rm.sig_leaf(rows, c), rm.gen_box(rng, n)
 
 
-def stream_boxes(ctx, rng, N):
+def stream_boxes(ctx, rng, N, seen_boxes):
     for _ in range(N):
         leaf, box = gen_one_negative(rng)
+        seen_boxes.append((leaf, box))
         lo, hi = lipschitz_enclosure(leaf, box)
         case = {'stream': 'box', 'leaf': leaf, 'box': box, 'enclosure': [lo, hi]}
         ctx.case(case, nontrivial=True)
@@ -207,7 +234,7 @@ def stream_boxes(ctx, rng, N):
                             s2, v2 = solve_feas(leaf, box)
                         finally:
                             cl.heuristic_reduce_cond_age_cones(True)
-                        if s2 == 'solved' and v2 > -math.inf:
+                        if s2 == 'solved' and v2 > -math.inf and covers_as_documented(leaf, box):
                             tags = ['F10-heuristic-reduction-infeasible-C06']
                     ctx.violation('exactness: a one-negative-term signomial with min over the box in [%.6g, %.6g] is reported %s by sage_feasibility'
                                   % (lo, hi, 'feasible' if feasible else 'infeasible'), case, tags=tags)
@@ -233,7 +260,7 @@ def stream_boxes(ctx, rng, N):
                         s2, v2 = solve_bound(pos, box, form=form)
                     finally:
                         cl.heuristic_reduce_cond_age_cones(True)
-                    if s2 == 'solved' and plo - 1e-4 * sc <= v2 <= phi + 1e-4 * sc:
+                    if s2 == 'solved' and plo - 1e-4 * sc <= v2 <= phi + 1e-4 * sc and covers_as_documented(pos, box, lagrangian=True):
                         tags = ['F10-heuristic-reduction-infeasible-C06']
                 ctx.violation('exactness: the level-0 %s bound %.8g of a posynomial plus a constant lies outside the enclosure [%.8g, %.8g] of its '
                               'minimum over the box' % (form, v, plo, phi), dict(case, posy=pos, form=form), tags=tags)
@@ -333,16 +360,18 @@ def stream_invariance(ctx, rng, N):
 
 
 def stream_covers(ctx, leaves):
-    """the real cover helper on the (transformed) signomials vs the model's"""
+    """the real cover helper on the (transformed) signomials vs the model's; entries are leaves or (leaf, box) pairs"""
     import sageopt.coniclifts as cl
     lines, impl = [], []
-    for leaf in leaves:
+    for item in leaves:
+        leaf, box = item if isinstance(item, tuple) else (item, None)
         f = st.build(leaf)
         f = f.without_zeros()
         gamma = cl.Variable(name='c06gamma')
         L = f - gamma
+        X = rm.build_sig_domain(leaf['n'], box)
         try:
-            con = cl.PrimalSageCone(L.c, L.alpha, None, 'c06')
+            con = cl.PrimalSageCone(L.c, L.alpha, X, 'c06')
         except Exception as e:  # noqa: BLE001
             continue
         io = sm.ech_json(con.ech)
@@ -354,14 +383,14 @@ def stream_covers(ctx, leaves):
             else:
                 v = float(se.offset) if isinstance(se, ScalarExpression) else float(se)
                 signs.append('neg' if v < 0 else ('pos' if v > 0 else 'zero'))
-        lines.append({'op': 'sage.ech', 'alpha': st.mat_json(L.alpha), 'signs': signs, 'hasX': False, 'settings': sm.DEFAULTS})
-        impl.append((leaf, io))
+        lines.append({'op': 'sage.ech', 'alpha': st.mat_json(L.alpha), 'signs': signs, 'hasX': X is not None, 'settings': sm.DEFAULTS})
+        impl.append(({'leaf': leaf, 'box': box}, io))
     mouts = run_driver(lines)
     for (leaf, io), mo in zip(impl, mouts):
         if isinstance(mo, dict) and 'error' in mo:
             raise common.DriverError(mo['error'])
-        ctx.case({'stream': 'covers', 'leaf': leaf}, nontrivial=True)
-        ctx.count('stream:covers')
+        ctx.case({'stream': 'covers', 'case': leaf}, nontrivial=True)
+        ctx.count('stream:covers' + (':box' if leaf['box'] else ''))
         if common.canon_json(io) != common.canon_json(mo):
             ctx.disagreement('covers', leaf, io, mo)
         else:
@@ -417,14 +446,15 @@ def run(ctx):
                         s2, v2 = solve_feas(e['leaf'], e['box'])
                     finally:
                         cl.heuristic_reduce_cond_age_cones(True)
-                    if s2 == 'solved' and v2 > -math.inf:
+                    if s2 == 'solved' and v2 > -math.inf and covers_as_documented(e['leaf'], e['box']):
                         tags = [e['tag']]
                 ctx.violation('exactness (corpus): %s: min over the box in [%.6g, %.6g] but sage_feasibility reports infeasible' % (e['note'][:60], lo, hi),
                               {'stream': 'corpus', 'entry': e}, tags=tags)
     stream_circuits(ctx, rng, 10 if quick else 80)
-    stream_boxes(ctx, rng, 25 if quick else 200)
+    boxes = []
+    stream_boxes(ctx, rng, 40 if quick else 300, boxes)
     leaves = stream_invariance(ctx, rng, 20 if quick else 150)
-    stream_covers(ctx, leaves)
+    stream_covers(ctx, leaves + boxes)
     stream_monotone(ctx, rng, 10 if quick else 80)
     if (not ctx.lean.ok or ctx.disagreements) and not ctx.violations:
         common.broken_report(ctx, 'closed-form, enclosure and metamorphic audits found no failing input')
